@@ -609,6 +609,29 @@ def _scen_twin(out, ctx, case, n, ref):
     r2 = ctx.draws(d2, s2, n)
     _cmp(ctx, "twin-differs:%s" % ctx.cname, ref, r1, {"which": "first twin"})
     _cmp(ctx, "twin-differs:%s" % ctx.cname, ref, r2, {"which": "second twin (drawn after the first)"})
+    if not out.disc:
+        # a (shallow) copy of an instance pointed at another stream: the original keeps drawing from its own stream,
+        # the copy from the new one - instances do not influence each other
+        import copy
+        s3 = _mk_stream(case["stream"], n)
+        try:
+            clone = copy.copy(d2)
+            clone.stream = s3
+        except Exception as e:                                    # noqa: BLE001
+            ctx.fail("copy-raises:%s:%s" % (ctx.cname, type(e).__name__), repr(e)[:120])
+            return
+        c2, c3 = s2.count, s3.count
+        ctx.draws(d2, s2, 2)
+        if d2.stream is not s2 or s3.count != c3:
+            ctx.fail("copy-shares-state:%s" % ctx.cname, {"original drew from the stream of its copy": s3.count - c3,
+                                                         "stream property": d2.stream is s2})
+            return
+        c2 = s2.count
+        ctx.draws(clone, s3, 2)
+        if s2.count != c2:
+            ctx.fail("copy-shares-state:%s" % ctx.cname, {"copy drew from the stream of the original": s2.count - c2})
+            return
+        out.label("copied-instance")
     carries_spare = ctx.cname in ("DistNormal", "DistLogNormal") and n % 2 == 1
     if carries_spare:
         # (the polar method produces normal variates in pairs: after an odd number of draws the instance holds the
